@@ -4,7 +4,10 @@
 -/
 import HL.Lemmas.SemTok
 import HL.Lemmas.SemTokGeom
+import HL.Lemmas.SemTokPlace
+import HL.Lemmas.SemTokLines
 import HL.Lemmas.SemTokWitness
+import HL.Model.SemTokPinned
 import Std.Data.String.ToNat
 namespace HL.Props.C17
 open HL HL.SemTok HL.SemTokSpec HL.Lemmas.SemTok
@@ -26,9 +29,9 @@ theorem encode_decode_unordered_counterexample :
       = [⟨0, 5, 1, 0, 0⟩, ⟨0, 4294967299, 1, 0, 0⟩] := by decide
 
 /-- Non-vacuity: the real tokens of a two-line journal are in document order. -/
-example : weaklyOrdered ((tokenize Classes.ascii W.cleanToks).map absOf) = true ∧
-    decode (encodeTokens (tokenize Classes.ascii W.cleanToks))
-      = (tokenize Classes.ascii W.cleanToks).map absOf := by decide +kernel
+example : weaklyOrdered ((tokenize Classes.ascii W.cleanText W.cleanToks).map absOf) = true ∧
+    decode (encodeTokens (tokenize Classes.ascii W.cleanText W.cleanToks))
+      = (tokenize Classes.ascii W.cleanText W.cleanToks).map absOf := by decide +kernel
 
 /-! ## 2. Range requests -/
 
@@ -51,7 +54,7 @@ theorem range_is_restriction (ts : List SemToken) (lo hi : UInt32)
   congr 1
 
 /-- Non-vacuity: line 1 of the two-line journal — 6 of its 13 tokens. -/
-example : (decode (encodeTokens (filterByRange 1 1 (tokenize Classes.ascii W.cleanToks)))).length = 6 := by
+example : (decode (encodeTokens (filterByRange 1 1 (tokenize Classes.ascii W.cleanText W.cleanToks)))).length = 6 := by
   decide +kernel
 
 /-! ## 3. Edits -/
@@ -168,141 +171,247 @@ example : (run cfgB ({}, {}) staleHistory).2.shown "u" = some [0, 0, 1, 0, 0] :=
 
 /-! ## 5. The tokens themselves
 
-  Input: the lexer's token list (the lexer is not part of this model).  `tokenize cls toks` is
-  `tokenizeForSemantics`; `cls` = `unicode.IsLetter` / `IsDigit`, any. -/
+  Input: the document text and the lexer's token list for it (the lexer is not part of this
+  model).  `tokenize cls text toks` is `tokenizeForSemantics`; `cls` = `unicode.IsLetter` /
+  `IsDigit`, any.  Positions and lengths are taken from the SOURCE EXTENT of each lexer token
+  (`Pos.Offset`, `End.Offset` and the text between them), columns from the UTF-16 cursor over the
+  text; the lexer's rune columns and (except for comments) token values play no role. -/
 
 /-- **legend_ok.**  Every token has a type from the advertised legend (13 types) and only
-    advertised modifier bits (2 modifiers) — for every lexer output whatsoever. -/
-theorem legend_ok (cls : Classes) (toks : List Token) :
-    ∀ s ∈ tokenize cls toks, legendOk legendTypes.length legendMods.length (absOf s) = true := by
+    advertised modifier bits (2 modifiers) — for every text and every lexer output whatsoever. -/
+theorem legend_ok (cls : Classes) (text : Bytes) (toks : List Token) :
+    ∀ s ∈ tokenize cls text toks, legendOk legendTypes.length legendMods.length (absOf s) = true := by
   intro s hs
-  have := tokGo_legend cls {} toks s hs
+  have := tokGo_legend cls text {} toks s hs
   have h13 : legendTypes.length = 13 := rfl
   have h2 : legendMods.length = 2 := rfl
   simp only [legendOk, absOf, h13, h2, Bool.and_eq_true, decide_eq_true_eq]
   exact ⟨this.1, this.2⟩
 
-/-- **ordered_disjoint_inline (partial).**  If the lexer's tokens are laid out left to right
-    with room for the cells each one claims (`spacedB`: bounds, and every mapped token starts
-    after `column + claimWidth` of the mapped token before it) and those cells lie inside the line (`inlineB`),
-    then the semantic tokens are in document order, do not overlap, and stay inside their
-    lines — including the tag tokens cut out of comments.  The hypotheses hold for the real
-    lexer's output outside the known deviations (evaluated by the driver on every case). -/
-theorem ordered_disjoint_inline_partial (cls : Classes) (toks : List Token) (lens : List Nat)
-    (hs : spacedB cls toks = true) (hi : inlineB lens cls toks = true) :
-    orderedDisjoint ((tokenize cls toks).map absOf) = true ∧
-    ∀ a ∈ (tokenize cls toks).map absOf, inLine lens a = true :=
-  have hs' : (mappedBody toks).all (tokBounds cls) = true ∧ chainB cls (mappedBody toks) = true := by
-    simpa [spacedB] using hs
-  ⟨(tokGo_ordered cls {} toks 0 0 hs'.1 hs'.2 (by
-      cases mappedBody toks with
-      | nil => trivial
-      | cons t r => simp only [Bound]; omega)).1,
-   tokGo_inline cls lens {} toks hs'.1 hi⟩
+/-! The hypotheses below are the LEXER'S CONTRACT about the token list it returns for the text
+    (the lexer is not modelled here; the driver evaluates them on every generated case, and they
+    hold on every one, including arbitrary byte strings):
+    `extentsB` — extents `[Pos.Offset, End.Offset)` lie inside the text and inside one line, a
+                 comment's value is its extent without the `;`, consecutive mapped tokens do not
+                 overlap and are on the same line iff the lexer says so (all in BYTES);
+    `cutsB`    — every extent starts and ends on a rune boundary of the text;
+    `lineOk`   — `Pos.Line` is one more than the number of line feeds before `Pos.Offset`.
+    None of them mentions token values (except a comment's), the lexer's rune columns, codes,
+    quoted commodities, white space, characters outside the BMP or non-ASCII text: the defects
+    those shapes triggered are repaired.  The one remaining guard is the CR of a CRLF line end
+    inside a comment (`devCrComment`, finding crlf-comment-length). -/
 
-/-- **covers_lexeme (partial).**  A token that is not cut out of a comment covers exactly the
-    lexeme of the lexer token it was made from (same line, same first and last UTF-16 unit,
-    a type of that kind), provided the lexer's position and value are `faithful` to the text —
-    which is false precisely for the deviations `devPipe`, `devCode`, `devQuoted`,
-    `devTextTrim`, `devCrComment`, `devNonBmpBefore`. -/
-theorem covers_lexeme_partial (cls : Classes) (text : Bytes) (toks : List Token)
-    (s : SemToken) (t : Token) (h : (s, t) ∈ tokenizeSrc cls toks)
-    (hplain : t.ty = .comment → (extractTags cls t).isEmpty = true)
-    (hf : faithful text t = true)
-    (hb : 1 ≤ t.pos.line ∧ t.pos.line < 2 ^ 32 ∧ 1 ≤ t.pos.col ∧ t.pos.col + u16lenB t.val + 1 < 2 ^ 32) :
-    coversTok text t (absOf s) = true := by
-  obtain ⟨c', hmem, _, _⟩ := tokGoSrc_mem cls {} toks s t h
-  rcases stepTok_mem cls c' t s hmem with ⟨hc, _, hne⟩ | ⟨semType, mods, hty, _, rfl, _⟩
-  · rw [hplain hc] at hne; cases hne
-  · exact plain_covers text t semType mods hty hf hb
-
-/-- The provenance list is the token list. -/
-theorem tokenizeSrc_fst (cls : Classes) (toks : List Token) :
-    (tokenizeSrc cls toks).map (·.1) = tokenize cls toks := tokGoSrc_fst cls {} toks
-
-/-- Consequently the client decodes exactly the server's tokens (the guard of `encode_decode`
-    holds for every lexer output that is `spacedB`). -/
-theorem encode_decode_tokenize_partial (cls : Classes) (toks : List Token)
-    (hs : spacedB cls toks = true) :
-    decode (encodeTokens (tokenize cls toks)) = (tokenize cls toks).map absOf := by
-  have hs' : (mappedBody toks).all (tokBounds cls) = true ∧ chainB cls (mappedBody toks) = true := by
-    simpa [spacedB] using hs
-  have ho := (tokGo_ordered cls {} toks 0 0 hs'.1 hs'.2 (by
+/-- **ordered_disjoint.**  For every text and every lexer output that honours the contract, the
+    semantic tokens — including the tag tokens cut out of comments — are in document order and
+    do not overlap.  (No guard: CRLF line ends included.) -/
+theorem ordered_disjoint (cls : Classes) (text : Bytes) (toks : List Token)
+    (hx : extentsB text toks = true) (hc : cutsB text toks = true) :
+    orderedDisjoint ((tokenize cls text toks).map absOf) = true :=
+  have hx' : (mappedBody toks).all (extentOk text) = true ∧ chainB text (mappedBody toks) = true := by
+    simpa [extentsB] using hx
+  (tokGo_ordered cls text {} toks 0 0 hx'.1 hx'.2 (measAll_of_cuts cls text toks hx'.1 hc) (by
       cases mappedBody toks with
       | nil => trivial
       | cons t r => simp only [Bound]; omega)).1
-  exact encode_decode _ (orderedDisjoint_weakly _ ho)
 
-/-- **Tags.**  Whatever the comment: every tag token is cut out exactly around `name:` for a
-    name accepted by `isValidTagName`, every tag value token around a non-empty string (byte
-    spans of the comment's value; where they land in the document is the business of the
-    deviations `devTagBytes`, `devTagSkippedPart`, `devNonBmpBefore`), and the spans are in
-    increasing order, disjoint and inside the comment. -/
+/-- **ordered_disjoint_inline (partial).**  … and every token stays inside its line as the
+    client counts it (UTF-16 units, CRLF or LF line ends not counted), provided the lexer's
+    line numbers are right (`lineOk`) and no comment token's value ends with the CR of a CRLF
+    line end (`devCrComment`, the open finding crlf-comment-length — the only guard). -/
+theorem ordered_disjoint_inline_partial (cls : Classes) (text : Bytes) (toks : List Token)
+    (hx : extentsB text toks = true) (hc : cutsB text toks = true)
+    (hl : (mappedBody toks).all (fun t => lineOk text t && !devCrComment t) = true) :
+    orderedDisjoint ((tokenize cls text toks).map absOf) = true ∧
+    ∀ a ∈ (tokenize cls text toks).map absOf, inLine (lineLens16 text) a = true :=
+  have hx' : (mappedBody toks).all (extentOk text) = true ∧ chainB text (mappedBody toks) = true := by
+    simpa [extentsB] using hx
+  ⟨ordered_disjoint cls text toks hx hc,
+   tokGo_inline cls text (lineLens16 text) {} toks hx'.1 (measAll_of_cuts cls text toks hx'.1 hc)
+     (inlineB_of_contract cls text toks hx'.1 hc hl)⟩
+
+/-- **covers_lexeme (partial).**  A token that is not cut out of a comment covers exactly the
+    lexeme of the lexer token it was made from (same line, same first and last UTF-16 unit, a
+    type of that kind, not empty), whenever that lexer token honours the contract (`extentOk`,
+    `cutOk`, `lineOk`) and is not a comment whose value ends with the CR of a CRLF line end
+    (`devCrComment`, the one open finding).  (`hplain` is a case distinction, not a guard: the
+    tokens cut out of a comment are the subject of `tag_tokens_placed`.) -/
+theorem covers_lexeme_partial (cls : Classes) (text : Bytes) (toks : List Token)
+    (s : SemToken) (t : Token) (h : (s, t) ∈ tokenizeSrc cls text toks)
+    (hplain : t.ty = .comment → (extractTags cls text t).isEmpty = true)
+    (hx : extentOk text t = true) (hc : cutOk text t = true) (hl : lineOk text t = true)
+    (hcr : devCrComment t = false) :
+    coversTok text t (absOf s) = true := by
+  obtain ⟨c', hmem, _, _⟩ := tokGoSrc_mem cls text {} toks s t h
+  simp only [cutOk, Bool.and_eq_true] at hc
+  rcases stepTok_mem cls text c' t s hmem with ⟨hcm, _, hne⟩ | ⟨semType, mods, hty, _, rfl, hnz, _⟩
+  · rw [hplain hcm] at hne; cases hne
+  · exact plain_covers_cuts text t semType mods hty (extentP_of text t hx)
+      (cut_of_isCut hc.1) (cut_of_isCut hc.2) hl hcr hnz
+
+/-- **Tags.**  A token cut out of a comment sits on the comment's line at the LSP character
+    of the first byte of a span of the comment text and has the UTF-16 length of that span,
+    where the span is exactly `name:` for a name accepted by `isValidTagName` (type `tag`) or a
+    non-empty tag value (type `tagValue`) — for every comment token that honours the contract,
+    CRLF line ends and non-ASCII text before the tag included. -/
+theorem tag_tokens_placed (cls : Classes) (text : Bytes) (toks : List Token)
+    (s : SemToken) (t : Token) (h : (s, t) ∈ tokenizeSrc cls text toks)
+    (htag : t.ty = .comment ∧ (extractTags cls text t).isEmpty = false)
+    (hx : extentOk text t = true) (hc : cutOk text t = true) (hl : lineOk text t = true) :
+    ∃ sp ∈ extractSpans cls t.val, SpanContent cls t.val sp ∧
+      (absOf s).ty = sp.ty.toNat ∧ (absOf s).mods = 0 ∧
+      ((absOf s).line, (absOf s).start) = posOfOffset text (t.pos.off + 1 + sp.off) ∧
+      (absOf s).len = u16lenB (sliceB text (t.pos.off + 1 + sp.off) (t.pos.off + 1 + sp.off + sp.len)) := by
+  obtain ⟨c', hmem, _, _⟩ := tokGoSrc_mem cls text {} toks s t h
+  have he := extentP_of text t hx
+  simp only [cutOk, Bool.and_eq_true] at hc
+  rcases stepTok_mem cls text c' t s hmem with ⟨_, hs, _⟩ | ⟨_, _, _, _, _, _, hpl⟩
+  · simp only [extractTags, List.mem_map] at hs
+    obtain ⟨sp, hsp, rfl⟩ := hs
+    have hcont := extractSpans_content cls t.val sp hsp
+    have hm := tags_measured cls text t he htag.1 (cut_of_isCut hc.1) (cut_of_isCut hc.2) sp hsp
+    obtain ⟨hi, hhi, hsf, _⟩ := extractSpans_spec cls t.val
+    have hb := spansFrom_mem_le hsf sp hsp
+    have hlen := he.cmtLen htag.1
+    simp only [measured, Bool.and_eq_true, decide_eq_true_eq] at hm
+    have h16 : sp.len16 < 2 ^ 32 := by omega
+    refine ⟨sp, hsp, hcont, ?_⟩
+    rw [absOf_tagToken text t sp he h16]
+    refine ⟨rfl, rfl, ?_, ?_⟩
+    · -- position
+      have hraw := he.cmt htag.1
+      have hsemi : text[t.pos.off]? = some 0x3B := getElem?_slice_zero _ _ _ _ _ hraw
+      obtain ⟨_, hp1⟩ := cut_ascii text t.pos.off 0x3B hsemi (by decide)
+      have hval : sliceB text (t.pos.off + 1) t.stop.off = t.val := by
+        have := sliceB_sub text t.pos.off t.stop.off 1 t.val.length (by omega)
+        rw [show t.pos.off + 1 + t.val.length = t.stop.off by omega, hraw] at this
+        simpa using this
+      obtain ⟨c1, _⟩ := extractSpans_cutP cls t.val sp hsp
+      have hcut : Cut text (t.pos.off + 1 + sp.off) :=
+        cut_slice hp1 (cut_of_isCut hc.2) (by omega) (by rw [hval]; exact c1)
+      have h1 := posLine_same text t.pos.off (t.pos.off + 1 + sp.off) (by omega)
+        (noLfP_sub he.oneLine (Nat.le_refl _) (by omega))
+      have h2 := posCol_cut text _ hcut
+      simp only [lineOk, beq_iff_eq] at hl
+      rw [← hl, ← h1, ← h2]
+    · -- length
+      have hraw := he.cmt htag.1
+      have hval : sliceB text (t.pos.off + 1) t.stop.off = t.val := by
+        have := sliceB_sub text t.pos.off t.stop.off 1 t.val.length (by omega)
+        rw [show t.pos.off + 1 + t.val.length = t.stop.off by omega, hraw] at this
+        simpa using this
+      have := sliceB_sub text (t.pos.off + 1) t.stop.off sp.off sp.len (by omega)
+      rw [this, hval]
+      exact span_len16 cls t.val sp hcont
+  · rw [hpl htag.1] at htag; cases htag.2
+
+/-- The provenance list is the token list. -/
+theorem tokenizeSrc_fst (cls : Classes) (text : Bytes) (toks : List Token) :
+    (tokenizeSrc cls text toks).map (·.1) = tokenize cls text toks := tokGoSrc_fst cls text {} toks
+
+/-- **encode_decode_tokenize.**  Consequently the client decodes exactly the server's tokens,
+    for every text and every lexer output that honours the contract (no guard). -/
+theorem encode_decode_tokenize (cls : Classes) (text : Bytes) (toks : List Token)
+    (hx : extentsB text toks = true) (hc : cutsB text toks = true) :
+    decode (encodeTokens (tokenize cls text toks)) = (tokenize cls text toks).map absOf :=
+  encode_decode _ (orderedDisjoint_weakly _ (ordered_disjoint cls text toks hx hc))
+
+/-- **Tag spans.**  Whatever the comment: every tag span is cut out exactly around `name:` for
+    a name accepted by `isValidTagName`, every tag value span around a non-empty string, and the
+    spans are in increasing order, disjoint and inside the comment. -/
 theorem tag_spans_wellformed (cls : Classes) (comment : Bytes) :
     (∀ sp ∈ extractSpans cls comment, SpanContent cls comment sp) ∧
     ∃ hi, hi ≤ comment.length ∧ SpansFrom 0 (extractSpans cls comment) hi :=
   ⟨extractSpans_content cls comment,
    let ⟨hi, h1, h2, _⟩ := extractSpans_spec cls comment; ⟨hi, h1, h2⟩⟩
 
-/-! ### Non-vacuity: a real lexer output that satisfies all hypotheses
-    (`2024-01-15 * payee ; k:v, n: w` / `    a:b  $1 @ 2 EUR`, 13 tokens, 4 of them tags). -/
+/-! ### Non-vacuity: real lexer outputs that satisfy all hypotheses — the clean two-line journal
+    (`2024-01-15 * payee ; k:v, n: w` / `    a:b  $1 @ 2 EUR`, 13 tokens, 4 of them tags) and
+    the witnesses of the repaired findings (a code, a quoted commodity, a payee after a
+    no-break space, a character outside the BMP before an amount, tags after non-ASCII comment
+    text, a tag after a skipped part). -/
 
-example : spacedB Classes.ascii W.cleanToks = true ∧
-    inlineB (lineLens16 W.cleanText) Classes.ascii W.cleanToks = true ∧
-    (tokenizeSrc Classes.ascii W.cleanToks).all (fun st =>
-      (st.2.ty == .comment && !(extractTags Classes.ascii st.2).isEmpty) || faithful W.cleanText st.2) = true ∧
-    (tokenize Classes.ascii W.cleanToks).length = 13 := by decide +kernel
+def hypsHold (text : Bytes) (toks : List Token) : Bool :=
+  extentsB text toks && cutsB text toks &&
+  (mappedBody toks).all (fun t => lineOk text t && !devCrComment t)
 
-/-! ### The known deviations, each on the real lexer's output for its witness text -/
+example : hypsHold W.cleanText W.cleanToks = true ∧
+    (tokenize Classes.ascii W.cleanText W.cleanToks).length = 13 := by decide +kernel
 
-/-- `payee|note`: the operator token is placed on the cell after the bar — it does not cover
-    the bar and it overlaps the note. -/
-theorem pipe_position_counterexample :
-    (tokenizeSrc Classes.ascii W.pipeToks).any (fun st =>
-      devPipe st.2 && !coversTok W.pipeText st.2 (absOf st.1)) = true ∧
-    orderedDisjoint ((tokenize Classes.ascii W.pipeToks).map absOf) = false := by decide +kernel
+example : hypsHold W.codeText W.codeToks = true ∧ hypsHold W.quotedText W.quotedToks = true ∧
+    hypsHold W.trimText W.trimToks = true ∧ hypsHold W.nonbmpText W.nonbmpToks = true ∧
+    hypsHold W.tagbText W.tagbToks = true ∧ hypsHold W.tagsText W.tagsToks = true := by decide +kernel
 
-/-- `(123)`: the code token covers `(12`. -/
-theorem code_length_counterexample :
-    (tokenizeSrc Classes.ascii W.codeToks).any (fun st =>
-      devCode st.2 && !coversTok W.codeText st.2 (absOf st.1)) = true := by decide +kernel
+/-! ### The open deviation, on the real lexer's output for its witness text -/
 
-/-- `"AAPL 2"`: the commodity token covers `"AAPL `. -/
-theorem quoted_commodity_length_counterexample :
-    (tokenizeSrc Classes.ascii W.quotedToks).any (fun st =>
-      devQuoted st.2 && !coversTok W.quotedText st.2 (absOf st.1)) = true := by decide +kernel
-
-/-- A payee after a tab starts on the tab; on a CRLF line a zero-length token sits on the CR. -/
-theorem text_trimmed_position_counterexample :
-    (tokenizeSrc Classes.ascii W.trimToks).any (fun st =>
-      devTextTrim W.trimText st.2 && !coversTok W.trimText st.2 (absOf st.1)) = true ∧
-    (tokenizeSrc Classes.ascii W.trim2Toks).any (fun st =>
-      devTextTrim W.trim2Text st.2 && (absOf st.1).len == 0) = true := by decide +kernel
-
-/-- `; note` + CRLF: the comment token is one unit longer than its line. -/
+/-- `; note` + CRLF: the comment token is one unit longer than its line (its value ends with
+    the CR, `devCrComment`) although the lexer's output honours the contract. -/
 theorem crlf_comment_length_counterexample :
-    (tokenizeSrc Classes.ascii W.crlfToks).any (fun st =>
-      devCrComment st.2 && !inLine (lineLens16 W.crlfText) (absOf st.1)) = true := by decide +kernel
+    (tokenizeSrc Classes.ascii W.crlfText W.crlfToks).any (fun st =>
+      devCrComment st.2 && !inLine (lineLens16 W.crlfText) (absOf st.1)) = true ∧
+    (extentsB W.crlfText W.crlfToks && cutsB W.crlfText W.crlfToks &&
+      (mappedBody W.crlfToks).all (lineOk W.crlfText)) = true := by decide +kernel
 
-/-- After `😀` the lexer's column is one less than the UTF-16 column. -/
-theorem nonbmp_column_counterexample :
-    (tokenizeSrc Classes.ascii W.nonbmpToks).any (fun st =>
+/-! ### The repaired deviations: what the PINNED tokenizer (HL/Model/SemTokPinned.lean) did on
+    the real lexer's output for each witness text, and what the repaired one does -/
+
+def allCover (text : Bytes) (toks : List Token) : Bool :=
+  (tokenizeSrc Classes.ascii text toks).all (fun st =>
+    inLine (lineLens16 text) (absOf st.1) &&
+    (if st.2.ty == .comment && (st.1.ty == tyTag || st.1.ty == tyTagValue)
+     then coversTag Classes.ascii text st.2 (absOf st.1) else coversTok text st.2 (absOf st.1))) &&
+  orderedDisjoint ((tokenize Classes.ascii text toks).map absOf)
+
+/-- `payee|note` as the pinned lexer reported it: the operator token was placed on the cell
+    after the bar — it did not cover the bar and it overlapped the note. -/
+theorem pinned_pipe_position_counterexample :
+    (Pinned.tokenizeSrc Classes.ascii W.pipePinnedToks).any (fun st =>
+      devPipe st.2 && !coversTok W.pipeText st.2 (absOf st.1)) = true ∧
+    orderedDisjoint ((Pinned.tokenize Classes.ascii W.pipePinnedToks).map absOf) = false ∧
+    allCover W.pipeText W.pipeToks = true := by decide +kernel
+
+/-- `(123)`: the pinned code token covered `(12`; the repaired one covers `(123)`. -/
+theorem pinned_code_length_counterexample :
+    (Pinned.tokenizeSrc Classes.ascii W.codeToks).any (fun st =>
+      devCode st.2 && !coversTok W.codeText st.2 (absOf st.1)) = true ∧
+    allCover W.codeText W.codeToks = true := by decide +kernel
+
+/-- `"AAPL 2"`: the pinned commodity token covered `"AAPL `; the repaired one covers the quotes. -/
+theorem pinned_quoted_commodity_length_counterexample :
+    (Pinned.tokenizeSrc Classes.ascii W.quotedToks).any (fun st =>
+      devQuoted st.2 && !coversTok W.quotedText st.2 (absOf st.1)) = true ∧
+    allCover W.quotedText W.quotedToks = true := by decide +kernel
+
+/-- A payee after a no-break space started on that space; on a CRLF line a zero-length token
+    sat on the CR.  Repaired: the payee token starts at its first letter, no empty token. -/
+theorem pinned_text_trimmed_position_counterexample :
+    (Pinned.tokenizeSrc Classes.ascii W.trimToks).any (fun st =>
+      devTextTrim W.trimText st.2 && !coversTok W.trimText st.2 (absOf st.1)) = true ∧
+    (Pinned.tokenizeSrc Classes.ascii W.trim2Toks).any (fun st =>
+      devTextTrim W.trim2Text st.2 && (absOf st.1).len == 0) = true ∧
+    allCover W.trimText W.trimToks = true ∧ allCover W.trim2Text W.trim2Toks = true := by decide +kernel
+
+/-- After `😀` the lexer's column is one less than the UTF-16 column; the repaired tokenizer
+    counts UTF-16 units itself. -/
+theorem pinned_nonbmp_column_counterexample :
+    (Pinned.tokenizeSrc Classes.ascii W.nonbmpToks).any (fun st =>
       devNonBmpBefore W.nonbmpText (lexemeRange W.nonbmpText st.2).1 &&
-      !coversTok W.nonbmpText st.2 (absOf st.1)) = true := by decide +kernel
+      !coversTok W.nonbmpText st.2 (absOf st.1)) = true ∧
+    allCover W.nonbmpText W.nonbmpToks = true := by decide +kernel
 
-/-- `; é, tag:value`: tag tokens are placed by byte offsets; both miss their text and the value
-    token leaves the line. -/
-theorem tag_byte_offsets_counterexample :
-    (tokenizeSrc Classes.ascii W.tagbToks).all (fun st =>
+/-- `; é, tag:value`: the pinned tag tokens were placed by byte offsets; both missed their text
+    and the value token left the line. -/
+theorem pinned_tag_byte_offsets_counterexample :
+    (Pinned.tokenizeSrc Classes.ascii W.tagbToks).all (fun st =>
       devTagBytes st.2 (st.1.col.toNat + st.1.len.toNat - st.2.pos.col) &&
       !coversTag Classes.ascii W.tagbText st.2 (absOf st.1)) = true ∧
-    (tokenize Classes.ascii W.tagbToks).any (fun s => !inLine (lineLens16 W.tagbText) (absOf s)) = true := by
-  decide +kernel
+    (Pinned.tokenize Classes.ascii W.tagbToks).any (fun s => !inLine (lineLens16 W.tagbText) (absOf s)) = true ∧
+    allCover W.tagbText W.tagbToks = true := by decide +kernel
 
-/-- `; p q ya:1, a:2`: the part `p q ya:1` is skipped, the tag `a:` is then found inside `ya:`. -/
-theorem tag_search_position_counterexample :
-    (tokenizeSrc Classes.ascii W.tagsToks).any (fun st =>
+/-- `; p q ya:1, a:2`: the part `p q ya:1` was skipped, the tag `a:` was then found inside `ya:`. -/
+theorem pinned_tag_search_position_counterexample :
+    (Pinned.tokenizeSrc Classes.ascii W.tagsToks).any (fun st =>
       devTagSkippedPart Classes.ascii st.2 &&
-      !coversTag Classes.ascii W.tagsText st.2 (absOf st.1)) = true := by decide +kernel
+      !coversTag Classes.ascii W.tagsText st.2 (absOf st.1)) = true ∧
+    allCover W.tagsText W.tagsToks = true := by decide +kernel
 
 end HL.Props.C17
